@@ -33,7 +33,7 @@ LEVEL_TEXT = (
     "laws over all strings are value-level and not decided.")
 LEVEL_NOTE = "Trusted: the kinds engine's `rendered` flag (str()/repr()/format/f-string of a value); re._special_chars_map."
 ASSUMPTIONS = []
-FLOORS = {"C18.argnames": 270, "C18.render": 45, "C18.escape": 1, "C18.interp": 2}
+FLOORS = {"C18.search": 2, "C18.argnames": 270, "C18.render": 45, "C18.escape": 1, "C18.interp": 2}
 
 SEARCH_METHODS = {"find", "rfind", "index", "rindex", "count", "startswith", "endswith", "split", "rsplit",
                   "replace", "partition", "strip"}
@@ -43,8 +43,36 @@ ARG_METHODS = {"get", "isNull", "hasArg", "getString", "getBoolean", "getInt", "
                "getAsInt", "getAsDecimal"}
 
 
+def string_search(ctx, model):
+    """find / find_last on a string: on every path of the string case the answer is the host search itself
+    (`obj.value.find(part, start)` / `.rfind(..)`); the host search already says -1 when there is no occurrence, and it
+    finds the empty text at every position up to and including the length, which is what `contains`, `starts_with`
+    and `ends_with` say.  A return of a constant before it (a 'start beyond the end' short cut) breaks that agreement
+    for the empty part."""
+    from ..partial import prune
+    for cname, meth in (("FuncFind", "find"), ("FuncFindLast", "rfind")):
+        m = model.method(P, cname, "execute")
+        tests = {norm(n.test) for n in ast.walk(m.node) if isinstance(n, ast.If) and norm(n.test).endswith(".isString()")}
+        if len(tests) != 1:
+            ctx.broken(m.qual, "string case (`<obj>.isString()`) not found")
+        t = tests.pop()
+        stmts, leaves = prune(m.node.body, {t: True, t.replace("isString", "isList"): False,
+                                            "args.isNull('obj')": False, "args.isNull(\"obj\")": False})
+        rets = [r for st in stmts for r in ast.walk(st) if isinstance(r, ast.Return) and r.value is not None]
+        if not rets or not leaves:
+            ctx.broken(m.qual, "the string case does not end in returns")
+        bad = [r for r in rets if not any(isinstance(x, ast.Call) and isinstance(x.func, ast.Attribute)
+                                          and x.func.attr == meth for x in ast.walk(r.value))]
+        ctx.check("C18.search", m, bad[0] if bad else None, not bad,
+                  f"{cname} answers `{norm(bad[0].value) if bad else ''}` for a string without asking the host "
+                  f"search ({meth}): for the empty part at the end of the text (find('', ''), start == length) the "
+                  f"answer then disagrees with contains / starts_with / ends_with",
+                  expr=f"{cname} string case", site=f"{cname}.execute: every string answer is the host {meth}()")
+
+
 def run(ctx):
     model = ctx.model
+    string_search(ctx, model)
     engine = Engine(model)
     # ---------------------------------------------------------------- argnames
     for c in sorted(model.subclasses("ValueFunc"), key=lambda c: c.name):
